@@ -35,6 +35,7 @@ CFG = {
         "Leptos.Owner.C08_frame_owners_drop",
         "Leptos.Owner.C08_frame_items_drop",
         "Leptos.Owner.C08_context_nearest",
+        "Leptos.Owner.C08_take_unshadows",
         "Leptos.Owner.C08_context_survives_cleanup",
         "Leptos.Owner.C08_context_fresh_full_false",
         "Leptos.Owner.C08_context_fresh_partial",
@@ -57,7 +58,9 @@ CFG = {
             "ImmediateEffect::new/new_scoped/new_mut/new_isomorphic)/memos/scoped tasks (spawn_local_scoped, spawn_local_scoped_with_cancellation, "
             "ScopedFuture; two segments each) that create signals, stored values, cleanups (plain and registering-during-cleanup), contexts, "
             "nested effects/memos/owners/tasks and write signals (`z`: the recursive shape of an immediate effect); histories of creation under up to two nested `Owner::with`, `cleanup`, handle drop, "
-            "`dispose`, direct `with_cleanup`, signal writes + poll/idle schedules, pause/resume, context lookups; first block = the scoped-task matrix "
+            "`dispose`, direct `with_cleanup`, signal writes + poll/idle schedules, pause/resume, context lookups (use / expect / with / take / update_context); first block = the context matrix "
+            "(a chain of 4 owners, the same type provided at every subset of the levels x take_context from each level repeated until nothing is left, "
+            "every lookup API from every level in between, re-provide + update_context; 5 nested-effect shapes), the scoped-task matrix "
             "(3 spawn functions x 5 spawning scopes: owner handle / effect / render effect / immediate effect / with_cleanup x release of the spawning "
             "scope before the first poll / between the polls / after completion x by cleanup / re-run / drop), the recursive shapes (7 kinds x 3 bodies "
             "that write one of their own dependencies after allocating) and the re-run matrix "
@@ -74,7 +77,7 @@ CFG = {
     ],
     "modelled": ["Owner::{new, child, with, with_cleanup, cleanup, on_cleanup, register, pause, resume}", "impl Cleanup for RwLock<OwnerInner>",
                  "Drop for OwnerInner", "Arena (SlotMap)", "ArenaItem::{new_with_storage, try_with_value, dispose, is_disposed}",
-                 "provide_context/use_context/take_context", "StoredValue", "Effect::new / new_sync / new_isomorphic / watch / watch_sync task loops + channel close (watch handler as repaired by hooks/fix-c08-2.patch)", "RenderEffect::new / new_isomorphic", "AsyncDerived::new (future ready at once)",
+                 "provide_context / use_context / expect_context / with_context / take_context / update_context", "StoredValue", "Effect::new / new_sync / new_isomorphic / watch / watch_sync task loops + channel close (watch handler as repaired by hooks/fix-c08-2.patch)", "RenderEffect::new / new_isomorphic", "AsyncDerived::new (future ready at once)",
                  "ImmediateEffect::{new, new_scoped, new_mut, new_isomorphic, dispose} + update_if_necessary / mark_dirty / add_source (recursion counters)",
                  "spawn_local_scoped / spawn_local_scoped_with_cancellation / ScopedFuture::{new, poll} (futures::future::Abortable trusted: abort flag checked before and after the inner poll)",
                  "RwSignal::try_set notifying a snapshot of the subscribers in subscription order", "Memo (signal sources only)"],
